@@ -35,6 +35,9 @@ func isMacroDefinition(node ast.Node) bool {
 	if !ok {
 		return false
 	}
+	if _, ok = exp.Left.(*ast.Identifier); !ok {
+		return false // e.g. a.b = macro(){}; not a definition, will be an eval error.
+	}
 	_, ok = exp.Right.(*ast.MacroLiteral)
 	return ok
 }
